@@ -8,7 +8,8 @@ whose recursion is explicit in the source and bounded only by CPython's recursio
 with an arbitrary statement of each kind as the loop's element and the generators replaced by the same contract.
 Since the AST is a finite tree, structural recursion terminates; .for iterates max(0, hi - lo) times (range loop)."""
 from a816.parse.codegen import _code_gen
-from vf.contracts.rt import assume, check, ghost
+from a816.symbols import InternalScope
+from vf.contracts.rt import assume, check, ghost, ghost_get
 
 
 def generator_contract(gen, node, resolver, defs, tok, sub_trees, explicit_recursion):
@@ -17,6 +18,7 @@ def generator_contract(gen, node, resolver, defs, tok, sub_trees, explicit_recur
     n0 = len(resolver.scopes)
     ghost("sub_trees", sub_trees)
     ghost("explicit_recursion", explicit_recursion)
+    ghost("n_expansions", 0)
     try:
         code = gen(node, resolver, defs, tok)
     except Exception:
@@ -47,3 +49,37 @@ def inv_expansion(resolver, g):
 
 def inv_true():
     return True
+
+
+# ------------------------------------------------------------------------------------------------ .for / .if for ARBITRARY bounds and sub-trees (C10)
+def step_for(node, resolver, k, g):
+    """one iteration of generate_for's loop, for the arbitrary value k of the loop variable: the body (and nothing else) is expanded
+    exactly once, in a fresh loop scope whose parent is the enclosing scope, with the variable bound to k WHILE it is expanded"""
+    s = ghost_get("last_expansion_scope")
+    return (ghost_get("n_expansions") == 1 and ghost_get("last_expansion_tree") is node.body.body and isinstance(s, InternalScope)
+            and s.parent is g["scope0"] and ghost_get("last_expansion_bindings").get(node.symbol) == k)
+
+
+def generate_if_selection_contract(node, resolver, defs, tok, v, defined, then_tree, else_tree):
+    """.if on ARBITRARY sub-trees: exactly one expansion of the selected block (non-zero -> first; zero or undefined -> else block, if any),
+    in the enclosing scope itself (no scope opened by .if)."""
+    scope0 = resolver.current_scope
+    n0 = len(resolver.scopes)
+    ghost("sub_trees", [then_tree, else_tree])
+    ghost("explicit_recursion", False)
+    ghost("n_expansions", 0)
+    ghost("last_expansion_tree", None)
+    ghost("last_expansion_scope", None)
+    from a816.parse.codegen import generate_if
+    try:
+        generate_if(node, resolver, defs, tok)
+    except Exception:
+        return
+    if defined and v != 0:
+        check("nonzero_expands_the_first_block_once", ghost_get("n_expansions") == 1 and ghost_get("last_expansion_tree") is then_tree)
+    elif else_tree is not None:
+        check("zero_or_undefined_expands_the_else_block_once", ghost_get("n_expansions") == 1 and ghost_get("last_expansion_tree") is else_tree)
+    else:
+        check("nothing_expanded_without_else", ghost_get("n_expansions") == 0)
+    if ghost_get("n_expansions") == 1:
+        check("expanded_in_the_enclosing_scope", ghost_get("last_expansion_scope") is scope0)
